@@ -556,7 +556,7 @@ def thorough_budget(variant, opts):
         return int(env)
     if "budget" in opts:
         return int(opts["budget"])
-    return 900 if variant in ("miri", "vg", "asan") else 600
+    return 600 if variant in ("miri", "vg", "asan") else 420
 
 
 def generic_check(p, prop, tier, seed, cfg):
